@@ -1,8 +1,8 @@
 package main
 
 import (
-	"go/constant"
 	"fmt"
+	"go/constant"
 	"go/token"
 	"go/types"
 	"sort"
@@ -500,6 +500,8 @@ func runC10(c *Ctx) {
 			c.check(strings.Join(fs, ",") == want, "R1", "open: flags deciding "+pair[0], pos(inv), strings.Join(fs, ","), "the choice of "+pair[0]+" depends on flags {"+strings.Join(fs, ",")+"}, documented {"+want+"}")
 		}
 		// Fileread only when no writing flag: its block is not dominated by the write arm
+	} else {
+		c.missing("R1", "(*Request).open")
 	}
 	if od := p.Func("(*Request).opendir"); od != nil {
 		okM := false
@@ -523,6 +525,8 @@ func runC10(c *Ctx) {
 			})
 		}
 		c.check(okM, "R1", "opendir: Method List before Filelist", p.Pos(od.Pos()), "r.Method = List", "Filelist is called for OPENDIR with a Method other than List")
+	} else {
+		c.missing("R1", "(*Request).opendir")
 	}
 	c.floor("R1", 55)
 
@@ -796,6 +800,8 @@ func runC10(c *Ctx) {
 				})
 				c.check(got == w.src, "R3", "FSETSTAT: Request."+w.dst, p.Pos(fc.Pos()), "copied from the packet", fmt.Sprintf("FSETSTAT's %s reaches the handler from %q", w.dst, got))
 			}
+		} else {
+			c.missing("R3", "filecmd")
 		}
 		// getPath / getHandle tables
 		for _, t := range append(all, ptrNamed(p, "sshFxpStatvfsPacket")) {
@@ -876,6 +882,8 @@ func runC10(c *Ctx) {
 					c.check(got == bit, "R3", "FileOpenFlags."+f, pos(a), fmt.Sprintf("flags&%#x != 0", bit), fmt.Sprintf("FileOpenFlags.%s is decoded from bit %#x, expected %#x", f, got, bit))
 				}
 			}
+		} else {
+			c.missing("R3", "newFileOpenFlags")
 		}
 	}
 
